@@ -45,7 +45,13 @@ type c37Case struct {
 
 // strPool: generic strings plus near-duplicates that only differ in a part a careless comparison could drop
 // (transport-type prefix before '|', port, case, surrounding whitespace, trailing / leading separator)
-var strPool = []string{"", "a", "b", "a/b", "ab", "udp|10.0.0.1:4000", "ws|10.0.0.1:4000", "udp|10.0.0.1:4001", "10.0.0.1:4000", "|10.0.0.1:4000", "A", "a ", " a", "a/", "/a", "a/b/", "a//b", "a%2Fb", "a%2fb"}
+var strPool = []string{"", "a", "b", "a/b", "ab", "udp|10.0.0.1:4000", "ws|10.0.0.1:4000", "udp|10.0.0.1:4001", "10.0.0.1:4000", "|10.0.0.1:4000", "A", "a ", " a", "a/", "/a", "a/b/", "a//b", "a%2Fb", "a%2fb",
+	// 19..: halves of joint-boundary pairs: (a, b<sep>a) and (a<sep>b, a) give the same text when two parameters are
+	// joined with <sep> instead of being compared one by one
+	"b/a", "a|b", "b|a", "a:b", "b:a", "a b", "b a", "ba"}
+
+// jointPairs: for each separator the pool indexes of (x, y<sep>x) and (x<sep>y, x)
+var jointPairs = [][4]int{{1, 19, 3, 1}, {1, 21, 20, 1}, {1, 23, 22, 1}, {1, 25, 24, 1}, {1, 26, 4, 1}}
 
 var nStr = len(strPool)
 
@@ -229,7 +235,16 @@ func genC37(t *rapid.T) c37Case {
 	c.TypeB = c.TypeA
 	c.A = genParams(t, "a.")
 	c.B = c.A
-	switch rapid.IntRange(0, 7).Draw(t, "rel") {
+	switch rapid.IntRange(0, 8).Draw(t, "rel") {
+	case 8: // both string parameters differ, but their concatenation around a separator is the same text
+		c.TypeA = rapid.SampledFrom([]string{"LookupHTTPHandler", "DialTptAddr", "HandleMountedStream", "SolicitProtocol", "LookupRpcService", "LookupRpcService", "LookupRpcClient", "LookupRpcClient", "SignalPeer", "HandleSignalPeer"}).Draw(t, "strtype")
+		c.TypeB = c.TypeA
+		jp := jointPairs[rapid.IntRange(0, len(jointPairs)-1).Draw(t, "sep")]
+		if rapid.Bool().Draw(t, "order") {
+			c.A.S1, c.A.S2, c.B.S1, c.B.S2 = jp[0], jp[1], jp[2], jp[3]
+		} else {
+			c.A.S2, c.A.S1, c.B.S2, c.B.S1 = jp[0], jp[1], jp[2], jp[3]
+		}
 	case 7: // the two directives differ only in one string parameter, by a near-duplicate of it
 		c.TypeA = rapid.SampledFrom([]string{"LookupHTTPHandler", "LookupHTTPHandler", "DialTptAddr", "DialTptAddr", "HandleMountedStream", "SolicitProtocol", "LookupRpcService", "LookupRpcClient", "SignalPeer", "HandleSignalPeer"}).Draw(t, "strtype")
 		c.TypeB = c.TypeA
